@@ -1694,6 +1694,95 @@ func runY(f []string) string {
 	return w.canonY(0, root.Elem(), map[string]int{})
 }
 
+// ---------------------------------------------------------------- B: composite and string parameters of a Go func
+// `B <Y|Z> <ra> <rb> <sarg> <nodes…>`: the script graph of a Y line; f(n[ra], n[rb], sarg) with a Go func
+// func(a, b *YNode, s string).  Printed: the two received graphs (each numbered on its own), whether the two pointers
+// are the same Go value, and the string.
+
+func runB(f []string) string {
+	if len(f) < 5 {
+		return "BADLINE"
+	}
+	ra, rb, sarg := atoi(f[1]), atoi(f[2]), f[3]
+	w := &ywalk{ident: map[string]string{}, seen: map[string]bool{}}
+	var b strings.Builder
+	b.WriteString("var n = [];\n")
+	for i, tok := range f[4:] {
+		p := strings.SplitN(tok, ":", 2)
+		nd := ynode{kind: p[0][0], fields: map[string]string{}}
+		if nd.kind == 'l' {
+			fmt.Fprintf(&b, "n[%d] = [];\n", i)
+			if len(p) == 2 && p[1] != "" {
+				nd.elems = strings.Split(p[1], ",")
+			}
+		} else {
+			fmt.Fprintf(&b, "n[%d] = {};\n", i)
+			if len(p) == 2 && p[1] != "" {
+				for _, kv := range strings.Split(p[1], ",") {
+					q := strings.SplitN(kv, "=", 2)
+					nd.fields[q[0]] = q[1]
+					nd.keys = append(nd.keys, q[0])
+				}
+			}
+		}
+		w.nodes = append(w.nodes, nd)
+	}
+	if ra >= len(w.nodes) || rb >= len(w.nodes) {
+		return "BADLINE"
+	}
+	val := func(s string) string {
+		if c, ok := refID(s); ok {
+			return fmt.Sprintf("n[%d]", c)
+		}
+		return s
+	}
+	for i, nd := range w.nodes {
+		for _, k := range nd.keys {
+			fmt.Fprintf(&b, "n[%d].%s = %s;\n", i, k, val(nd.fields[k]))
+		}
+		for j, e := range nd.elems {
+			fmt.Fprintf(&b, "n[%d][%d] = %s;\n", i, j, val(e))
+		}
+	}
+	var js string
+	switch {
+	case sarg == "t":
+		js = "true"
+	case sarg == "F":
+		js = "false"
+	case sarg == "u":
+		js = "undefined"
+	case sarg == "n":
+		js = "null"
+	case strings.HasPrefix(sarg, "i"):
+		js = "(" + sarg[1:] + ")"
+	default:
+		return "BADLINE"
+	}
+	fmt.Fprintf(&b, "f(n[%d], n[%d], %s)", ra, rb, js)
+	vm := goja.New()
+	out := ""
+	if f[0] == "Z" {
+		vm.Set("f", func(a, c *ZNode, s string) {
+			out = w.canonY(ra, reflect.ValueOf(a), map[string]int{}) + " | " + w.canonY(rb, reflect.ValueOf(c), map[string]int{}) +
+				fmt.Sprintf(" | same=%v | str=%s", a == c, s)
+		})
+	} else {
+		vm.Set("f", func(a, c *YNode, s string) {
+			out = w.canonY(ra, reflect.ValueOf(a), map[string]int{}) + " | " + w.canonY(rb, reflect.ValueOf(c), map[string]int{}) +
+				fmt.Sprintf(" | same=%v | str=%s", a == c, s)
+		})
+	}
+	var err error
+	if m := recoverStr(func() { _, err = vm.RunString(b.String()) }); m != "" {
+		return m
+	}
+	if err != nil {
+		return "JSERR " + common.OneLine(err.Error())
+	}
+	return out
+}
+
 // ---------------------------------------------------------------- K: nested wrappers (element wrapper -> field wrapper) on *[]KOuter
 
 type KInner struct{ X int }
@@ -2027,6 +2116,188 @@ func runC(f []string) string {
 		}
 	}
 	return "fixed=[" + strings.Join(fixed, ",") + "] tail=[" + strings.Join(tail, ",") + "] -> " + res
+}
+
+// D <source> <dest>: typed export dispatch — which container a script object of each implementation class exports into
+var dSources = map[string]string{
+	"arr":         "[1,2,3]",
+	"arrHole":     "[1,,3]",
+	"arrEmpty":    "[]",
+	"arr2":        "[4,5]",
+	"arrIter":     "var a = [1,2,3]; a[Symbol.iterator] = function*() { yield 7; yield 8 }; a",
+	"arrIterGone": "var a = [1,2]; a[Symbol.iterator] = undefined; a",
+	"set":         "new Set([3,1,2])",
+	"setEmpty":    "new Set()",
+	"map":         "new Map([[1,10],[2,20]])",
+	"u8":          "new Uint8Array([1,2,3])",
+	"i16":         "new Int16Array([5,6])",
+	"dv":          "new DataView(new ArrayBuffer(4))",
+	"ab":          "new ArrayBuffer(2)",
+	"alike":       "({length: 2, 0: 7, 1: 8})",
+	"alikeHole":   "({length: 3, 0: 7})",
+	"fn":          "(function f(a, b) {})",
+	"plain":       "({a: 1})",
+	"gen":         "(function*() { yield 1; yield 2 })()",
+	"iterObj":     "var o = {length: 5}; o[Symbol.iterator] = function*() { yield 4 }; o",
+	"proxyArr":    "new Proxy([1,2], {})",
+}
+
+func dShow(v reflect.Value) string {
+	for v.Kind() == reflect.Interface {
+		if v.IsNil() {
+			return "nil"
+		}
+		v = v.Elem()
+	}
+	if v.Kind() == reflect.Slice && v.Len() == 2 {
+		return "<" + dShow(v.Index(0)) + "," + dShow(v.Index(1)) + ">"
+	}
+	return fmt.Sprint(v.Interface())
+}
+
+func dDestType(name string) reflect.Type {
+	switch name {
+	case "sl":
+		return reflect.TypeOf([]interface{}(nil))
+	case "by":
+		return reflect.TypeOf([]byte(nil))
+	case "st":
+		return reflect.TypeOf([]int(nil))
+	case "a2":
+		return reflect.TypeOf([2]interface{}{})
+	case "a3":
+		return reflect.TypeOf([3]interface{}{})
+	case "ms":
+		return reflect.TypeOf(map[string]interface{}(nil))
+	case "mi":
+		return reflect.TypeOf(map[interface{}]interface{}(nil))
+	}
+	return nil
+}
+
+// DS <source> <dest>: [x, x] into []dest — one Go value or two?
+func runDS(f []string) string {
+	if len(f) != 2 {
+		return "BADLINE"
+	}
+	src, ok := dSources[f[0]]
+	dt := dDestType(f[1])
+	if !ok || dt == nil {
+		return "BADLINE"
+	}
+	vm := goja.New()
+	vm.Set("SRC", src)
+	v, err := vm.RunString("var x = eval(SRC); [x, x]")
+	if err != nil {
+		return "JSERR " + common.OneLine(err.Error())
+	}
+	dst := reflect.New(reflect.SliceOf(dt))
+	var eerr error
+	if m := recoverStr(func() { eerr = vm.ExportTo(v, dst.Interface()) }); m != "" {
+		return m
+	}
+	if eerr != nil {
+		return "err"
+	}
+	out := dst.Elem()
+	if out.Len() != 2 {
+		return "other"
+	}
+	a, b := out.Index(0), out.Index(1)
+	switch a.Kind() {
+	case reflect.Array:
+		return "value"
+	case reflect.Map:
+		if a.Pointer() == b.Pointer() {
+			return "shared"
+		}
+		return "split"
+	case reflect.Slice:
+		if a.Len() == 0 && b.Len() == 0 {
+			return "empty"
+		}
+		if a.Pointer() == b.Pointer() && a.Len() == b.Len() {
+			return "shared"
+		}
+		return "split"
+	}
+	return "other"
+}
+
+func runD(f []string) string {
+	if len(f) != 2 {
+		return "BADLINE"
+	}
+	src, ok := dSources[f[0]]
+	if !ok {
+		return "BADLINE"
+	}
+	vm := goja.New()
+	v, err := vm.RunString(src)
+	if err != nil {
+		return "JSERR " + common.OneLine(err.Error())
+	}
+	var dst reflect.Value
+	switch f[1] {
+	case "sl":
+		dst = reflect.ValueOf(new([]interface{}))
+	case "by":
+		dst = reflect.ValueOf(new([]byte))
+	case "st":
+		dst = reflect.ValueOf(new([]int))
+	case "a2":
+		dst = reflect.ValueOf(new([2]interface{}))
+	case "a3":
+		dst = reflect.ValueOf(new([3]interface{}))
+	case "ms":
+		dst = reflect.ValueOf(new(map[string]interface{}))
+	case "mi":
+		dst = reflect.ValueOf(new(map[interface{}]interface{}))
+	default:
+		return "BADLINE"
+	}
+	var eerr error
+	if m := recoverStr(func() { eerr = vm.ExportTo(v, dst.Interface()) }); m != "" {
+		return m
+	}
+	if eerr != nil {
+		msg := eerr.Error()
+		switch {
+		case strings.Contains(msg, "an Array into an array, lengths mismatch"):
+			return "err:lenArray"
+		case strings.Contains(msg, "an iterable into an array, lengths mismatch"):
+			return "err:lenIterable"
+		case strings.Contains(msg, "array-like object into an array, lengths mismatch"):
+			return "err:lenArrayLike"
+		case strings.Contains(msg, "a Set into an array, lengths mismatch"):
+			return "err:lenSet"
+		case strings.Contains(msg, "not an array or iterable"):
+			return "err:notArrayOrIterable"
+		}
+		return "err:other " + common.OneLine(msg)
+	}
+	r := dst.Elem()
+	switch r.Kind() {
+	case reflect.Map:
+		var parts []string
+		for _, k := range r.MapKeys() {
+			parts = append(parts, dShow(k)+":"+dShow(r.MapIndex(k)))
+		}
+		sort.Strings(parts)
+		return "map{" + strings.Join(parts, ",") + "}"
+	case reflect.Slice, reflect.Array:
+		if r.Type() == reflect.TypeOf([]byte(nil)) {
+			if _, isBytes := v.Export().([]byte); isBytes || f[0] == "i16" || f[0] == "dv" || f[0] == "ab" || f[0] == "u8" {
+				return fmt.Sprintf("bytes:%d", r.Len())
+			}
+		}
+		parts := make([]string, r.Len())
+		for i := range parts {
+			parts[i] = dShow(r.Index(i))
+		}
+		return "seq[" + strings.Join(parts, ",") + "]"
+	}
+	return "other"
 }
 
 // A <variadic> <kind,kind,...> | <arg> ...   argument conversion through wrapReflectFunc
@@ -2393,6 +2664,8 @@ func main() {
 			return runM(f[1:])
 		case "Y":
 			return runY(f[1:])
+		case "B":
+			return runB(f[1:])
 		case "I":
 			return runI(f[1:])
 		case "K":
@@ -2401,6 +2674,10 @@ func main() {
 			return runC(f[1:])
 		case "A":
 			return runA(f[1:])
+		case "D":
+			return runD(f[1:])
+		case "DS":
+			return runDS(f[1:])
 		case "J":
 			return runJ(f[1:])
 		case "E":
